@@ -21,6 +21,7 @@ import (
 	"sort"
 	"strconv"
 	"sync"
+	"testing/synctest"
 
 	"github.com/vipnode/vipnode/v2/pool/store"
 	"pgregory.net/rapid"
@@ -59,15 +60,15 @@ type parkedTask struct {
 }
 
 type sched struct {
-	mu      sync.Mutex
-	tasks   map[int64]int // goroutine id -> task index
-	names   []string
-	parked  map[int]*parkedTask
-	done    map[int]bool
-	trace   []string
-	bubble  string
-	aborted bool
-	self    int64
+	mu       sync.Mutex
+	tasks    map[int64]int // goroutine id -> task index
+	names    []string
+	parked   map[int]*parkedTask
+	done     map[int]bool
+	trace    []string
+	bubble   string
+	aborted  bool
+	self     int64
 	stackBuf []byte
 }
 
@@ -305,4 +306,18 @@ func bubbleLeftovers() []string {
 		out = append(out, string(block))
 	}
 	return out
+}
+
+// closeStore closes a store; inside a synctest bubble it first waits for every
+// other goroutine to block. Reason: badger's iterators prefetch values in
+// goroutines of their own and Iterator.Close does not wait for the CURRENT
+// item's prefetch; DB.Close then keeps the value-log file locks forever, so a
+// straggling prefetch goroutine would block on them for good and the bubble
+// could never end. (A badger quirk - one leaked goroutine at shutdown - not
+// something the properties speak about.)
+func closeStore(st interface{ Close() error }) error {
+	if myBubble() != "" {
+		synctest.Wait()
+	}
+	return st.Close()
 }
